@@ -12,7 +12,7 @@ OBLIGATION = "release_git_object"
 REQUESTS_NEED_IMPL = True
 THEOREMS = ["C04_id_is_tag_hash", "C04_parse", "C04_object_hex_roundtrip", "C04_type_map_injective", "C04_type_recoverable",
             "C04_manifest_injective", "C04_irrelevant_fields", "C04_presence", "C04_no_target", "C04_type_table",
-            "C04_satisfiable"]
+            "C04_satisfiable", "C04_tagger_date_exact"]
 RULE = ("5 target types x {no author, author, author+date, date without author (rejected)} x message {None, empty, "
         "arbitrary incl. newlines / leading spaces / binary} x names with newlines/spaces/empty x dates over the whole "
         "accepted range, all microsecond shapes, canonical and junk offset bytes; target None (TypeError) included; "
@@ -81,6 +81,13 @@ def impl(c):
     res = {"id": r.id.hex(), "manifest": git_objects.release_git_object(r).hex(), "swhid": str(r.swhid()),
            "target_swhid": str(r.target_swhid())}
     try:
+        import warnings
+        with warnings.catch_warnings():
+            warnings.simplefilter("ignore")
+            res["manifest_from_dict_arg"] = git_objects.release_git_object(r.to_dict()).hex()    # deprecated route
+    except Exception as e:
+        res["manifest_from_dict_arg"] = "error:" + exc_class(e)
+    try:
         res["id_variant"] = _build(c, 1).id.hex()
     except Exception as e:
         res["id_variant"] = "error:" + exc_class(e)
@@ -120,6 +127,8 @@ def oracle(c, ires, mres):
     man = bytes.fromhex(ires["manifest"])
     if ires["id"] != hashlib.sha1(man).hexdigest():
         return "id is not the SHA-1 of the tag object"
+    if ires["manifest_from_dict_arg"] != ires["manifest"]:
+        return "release_git_object(<dict>) differs from release_git_object(<Release>)"
     if ires["id_variant"] != ires["id"]:
         return "synthetic flag / metadata / split name+email influence the id"
     if ires["id_from_dict"] != ires["id"]:
